@@ -41,8 +41,13 @@ def gen_species(rng, grains=False):
     return sp
 
 
+USER_ELEMENTS = ["e", "H", "He", "C", "O", "PAH", "Xx"]      # PAH, Xx: user-declared elements without an entry in the mass tables
+
+
 def build(species):
     reset_globals()
+    if any("PAH" in s_ or "Xx" in s_ for s_ in species):
+        return Network(required_species=list(species), elements=list(USER_ELEMENTS), pseudo_elements=["CR", "PHOTON"])
     return Network(required_species=list(species))
 
 
@@ -141,7 +146,11 @@ def check_renorm(res, where, case, species, elements, matrix_terms, factor_terms
         if mode == "matching-reference" and new != ab:
             # outside the theorem's premise when a molecule holds an element that is no atomic species of the network
             orphan = sorted({el for s in species if not s.is_electron for el in s.element_count if el not in eidx})
-            c3 = dict(case, finding="C16-identity-needs-every-element-as-atom") if orphan else c2
+            # ... or when a molecule holds an element without mass number: its weight 1 is not part of the molecule's mass number
+            massless = sorted({el for s in species if not s.is_electron and len(s.element_count) > 1
+                               for el in s.element_count if el in eidx and elements[eidx[el]].A <= 0})
+            c3 = (dict(case, finding="C16-identity-needs-every-element-as-atom") if orphan
+                  else dict(case, finding="C16-identity-massless-element-in-molecule") if massless else c2)
             res.violation("oracle", f"{where}: reference ratios already match but abundances change: {[float(x) for x in ab][:4]} -> "
                                     f"{[float(x) for x in new][:4]} (elements without atomic species: {orphan})", c3)
             return
@@ -268,7 +277,9 @@ def check_net(res, model, species_names, rng, tag, render=False):
 FIXED = [["H", "O", "H2", "H2O", "OH", "e-"], ["H", "He", "C", "O", "CO", "H2", "HCO+", "e-", "#CO"], ["H", "D", "HD", "H2", "H+", "e-"],
          ["H"], ["H", "He"], ["He", "C", "CO"]]
 GRAINS = [["H", "O", "H2O", "GRAIN0", "GRAIN-", "e-"], ["H", "He", "GRAIN0"], ["H", "C", "O", "CO", "GRAIN0", "GRAIN+", "GRAIN-", "e-", "#CO"]]
-FINDINGS = [["H", "C", "CO", "e-"]]
+# a user-declared element without mass number, present as an atom and in ions: it weighs 1 like a dust grain
+MASSLESS = [["H2", "CO", "He", "He+", "O", "C+", "H+", "PAH+", "PAH-", "H", "C", "PAH", "e-"], ["H", "Xx", "Xx+", "H2", "e-"]]
+FINDINGS = [["H", "C", "CO", "e-"], ["H", "Xx", "XxH", "H2", "e-"]]
 
 
 def run(res, info):
@@ -277,7 +288,7 @@ def run(res, info):
     res.rule = ("networks of 2-5 atomic species with 2-8 molecules / ions / ices built from them, electrons, (separately) dust grains; random positive "
                 "rational abundances; reference = random ratios and = the current ratios; non-trivial = at least two elements")
     res.assumptions = ["the coupling matrix is non-singular (singular cases are counted and skipped)",
-                       "a species without mass number (dust grain) weighs 1 in matrix and factor"]
+                       "a species without mass number (dust grain, user-declared element outside the mass tables) weighs 1 in matrix and factor"]
     n = 150 if res.tier == "quick" else 12000
     nb = 12 if res.tier == "quick" else 400
     for i, sp in enumerate(FIXED):
@@ -288,6 +299,8 @@ def run(res, info):
         check_net(res, model, sp, rng, ("finding", i), render=True)
     for i, sp in enumerate(GRAINS):
         check_net(res, model, sp, rng, ("grains", i), render=True)
+    for i, sp in enumerate(MASSLESS):
+        check_net(res, model, sp, rng, ("massless", i), render=True)
     for i in range(n):
         check_net(res, model, gen_species(rng, grains=(i % 4 == 3)), rng, i, render=i < nb)
     if model:
